@@ -627,7 +627,8 @@ static void peer(void) {
  * the resource answers ?v=<n> with body n (own byte stream), no query with body 0, through
  * coap_add_data_large_response().  Result per item: R:<code>:<num/m/szx>:<plen>:<eq>, eq '=' when
  * the payload is body_q at the offset of the returned block, '!' when it is not, '-' no payload */
-static void rel_free(coap_session_t *s, void *p) { (void)s; free(p); }
+static int g2_adl, g2_rel;
+static void rel_free(coap_session_t *s, void *p) { (void)s; g2_rel++; free(p); }
 
 static void hnd_get_peer(coap_resource_t *r, coap_session_t *s, const coap_pdu_t *req,
                          const coap_string_t *q, coap_pdu_t *resp) {
@@ -637,6 +638,7 @@ static void hnd_get_peer(coap_resource_t *r, coap_session_t *s, const coap_pdu_t
   for (size_t i = 0; i < body_len; i++) b[i] = peer_byte(t, i);
   coap_pdu_set_code(resp, COAP_RESPONSE_CODE_CONTENT);
   /* libcoap copies nothing: the buffer lives as long as the lg_xmit and is freed by the release */
+  g2_adl++;
   coap_add_data_large_response(r, s, req, resp, q, COAP_MEDIATYPE_APPLICATION_OCTET_STREAM, -1, 0,
                                body_len, b, rel_free, b);
 }
@@ -645,6 +647,7 @@ static void peer_g2(void) {
   body_len = (size_t)atol(vtok[2]);
   peer_seed = atol(vtok[3]);
   int szx_cfg = atoi(vtok[4]);
+  g2_adl = g2_rel = 0;
   vn_now = 1000;
   vn_log_reset();
   vn_nnodes = 0;
@@ -716,8 +719,9 @@ static void peer_g2(void) {
     }
     if (!shown) printf("NONE ");
   }
-  printf("END\n");
   coap_free_context(srv);
+  /* every coap_add_data_large_response() call must have had its release callback run by now */
+  printf("END ADL:%d REL:%d\n", g2_adl, g2_rel);
 }
 
 int main(void) {
